@@ -39,10 +39,13 @@ TYPES = {
     # values that compare equal but are distinguishable (a property may depend on the representation)
     "dec": (None, [Decimal("2.5"), Decimal("2.50"), Decimal("0"), Decimal("0.0"), Decimal("7")], ["2.5", "2.500", 7], ["x", [1]]),
     "numif": (None, [3, 3.0, 0.0, -0.0, 0], ["4"], ["x", [1]]),
+    # a negation and an exclusive-or: their verdict is taken from errors recorded on the parse context
+    "notneg": (None, [3, 0, 250], [], [-1, -20]),            # ~(int < 0), the input comes back unchanged
+    "xorsmall": (None, [50, -5, 12], [], [3, 0, 7]),          # (int >= 0) ^ (int <= 10): 0..10 satisfy both
 }
 PROP = {"int": lambda v: v * 2, "str": lambda v: len(v), "listint": lambda v: len(v), "optint": lambda v: (v or 0) + 1,
-        "dec": lambda v: str(v), "numif": lambda v: repr(v)}
-PROP_RET = {"dec": str, "numif": str}
+        "dec": lambda v: str(v), "numif": lambda v: repr(v), "notneg": lambda v: repr(v), "xorsmall": lambda v: v + 1}
+PROP_RET = {"dec": str, "numif": str, "notneg": str}
 _uid = [0]
 
 
@@ -63,6 +66,10 @@ def conforms_leaf(t, v):
         return isinstance(v, Decimal)
     if t == "numif":
         return isinstance(v, (int, float)) and not isinstance(v, bool)
+    if t == "notneg":
+        return not (isinstance(v, int) and not isinstance(v, bool) and v < 0)
+    if t == "xorsmall":
+        return isinstance(v, int) and not isinstance(v, bool) and ((v >= 0) != (v <= 10))
     return True
 
 
@@ -71,11 +78,11 @@ def make_case(i, rng, tier):
     n = rng.randint(1, 4)
     fields = []
     for j in range(n):
-        t = rng.choice(["int", "int", "str", "listint", "optint", "dec", "numif"])
+        t = rng.choice(["int", "int", "str", "listint", "optint", "dec", "numif", "notneg", "xorsmall"])
         f = {"name": "f%d" % j, "type": t, "required": rng.random() < 0.5, "default": None, "alias": None, "ci": False, "no_output": None,
              "immutable": rng.random() < 0.15}
         if not f["required"]:
-            f["default"] = rng.choice([{"int": 1, "str": "d", "listint": [9], "optint": None, "dec": Decimal("1.0"), "numif": 1}[t], "<none>"])
+            f["default"] = rng.choice([{"int": 1, "str": "d", "listint": [9], "optint": None, "dec": Decimal("1.0"), "numif": 1, "notneg": 4, "xorsmall": 40}[t], "<none>"])
         if rng.random() < 0.3:
             f["alias"] = "f%dAl" % j
         if rng.random() < 0.12:
@@ -192,7 +199,11 @@ def build(case):
         o["addition"] = int
     ns = {"__annotations__": {}, "__module__": "vmon_generated", "__qualname__": name, "__options__": Options(**o)}
     import typing
-    ann = {"int": int, "str": str, "listint": typing.List[int], "optint": typing.Optional[int], "dec": Decimal, "numif": typing.Union[int, float]}
+    from utype import Rule
+    from utype.parser.rule import LogicalType
+    ann = {"int": int, "str": str, "listint": typing.List[int], "optint": typing.Optional[int], "dec": Decimal, "numif": typing.Union[int, float],
+           "notneg": LogicalType.not_of(Rule.annotate(int, constraints={"lt": 0})),
+           "xorsmall": LogicalType.one_of(Rule.annotate(int, constraints={"ge": 0}), Rule.annotate(int, constraints={"le": 10}))}
     for f in case["fields"]:
         ns["__annotations__"][f["name"]] = typing.Final[ann[f["type"]]] if f.get("final") else ann[f["type"]]
         kw = {}
